@@ -347,6 +347,53 @@ def multipath_expect(spec, offsets, S):
     return exp
 
 
+def copies_translation_closed(pieces, offsets, S):
+    """pieces written through copies of one element (the pieces of a fractured polygon, or the outline polygons of
+    a non-simple path) must be the same piece set placed at EVERY offset the judge expands from the repetition's
+    struct fields:  pieces == union over offsets o of (base + o*S).  The shape of the pieces is not judged here
+    (region facts belong to C01).  Exact on the integer grid: the smallest remaining piece belongs to the copy at the
+    smallest offset; its translates to every other offset must be present.  -> '' or a description."""
+    offs = []
+    for o in offsets:
+        ox, oy = fr(o[0]) * S, fr(o[1]) * S
+        if ox.denominator != 1 or oy.denominator != 1:
+            rx, ry = round(ox), round(oy)
+            if abs(ox - rx) > Fraction(1, 10 ** 6) or abs(oy - ry) > Fraction(1, 10 ** 6):
+                return ''   # off-grid offsets: pieces are not exact translates; count-only
+            ox, oy = rx, ry
+        offs.append((int(ox), int(oy)))
+    offs.sort()
+    o0 = offs[0]
+    # pieces may have off-grid vertices (cuts), whose rounding is taken per copy: translates agree within 1 grid unit
+    index = {}
+    for pc in pieces:
+        index.setdefault(pc[0], []).append(pc)
+
+    def take(t):
+        for dx in (0, -1, 1):
+            for dy in (0, -1, 1):
+                lst = index.get((t[0][0] + dx, t[0][1] + dy))
+                if not lst:
+                    continue
+                for k, c in enumerate(lst):
+                    if len(c) == len(t) and all(abs(a[0] - b[0]) <= 1 and abs(a[1] - b[1]) <= 1 for a, b in zip(c, t)):
+                        lst.pop(k)
+                        if not lst:
+                            del index[(t[0][0] + dx, t[0][1] + dy)]
+                        return True
+        return False
+    remaining = len(pieces)
+    while remaining:
+        q = min(min(v) for v in index.values()) if len(index) < 64 else min(index[min(index)])
+        base = tuple((x - o0[0], y - o0[1]) for x, y in q)
+        for o in offs:
+            t = tuple((x + o[0], y + o[1]) for x, y in base)
+            if not take(t):
+                return 'piece starting %r exists at offset %r but its translate to offset %r is missing (offsets in grid units: %r)' % (q[:3], o0, o, offs)
+            remaining -= 1
+    return ''
+
+
 def d2_compare(data, source, max_points, counters, history=None, pathspec=None):
     """-> mismatches.  counters: dict incremented with out-of-scope / informational counts.
     history: for the prophist kind, the sequence of property calls that built the element in cell TOP*; the
@@ -396,7 +443,7 @@ def d2_compare(data, source, max_points, counters, history=None, pathspec=None):
                 continue
             offs = p['repetition']['expanded']
             if max_points > 4 and n > max_points:
-                fractured_tags.append((p['tag'], len(offs), src_props(p['properties'], sc['name'])))
+                fractured_tags.append((p['tag'], offs, src_props(p['properties'], sc['name'])))
                 continue
             props = src_props(p['properties'], sc['name'])
             for o in offs:
@@ -439,7 +486,7 @@ def d2_compare(data, source, max_points, counters, history=None, pathspec=None):
             if not f['simple_path']:
                 counters['out_of_scope_nonsimple_path'] = counters.get('out_of_scope_nonsimple_path', 0) + 1
                 for el in f['elements']:
-                    fractured_tags.append((el['tag'], len(f['repetition']['expanded']), props))
+                    fractured_tags.append((el['tag'], f['repetition']['expanded'], props))
                 continue
             for el in f['elements']:
                 if any(q[1] != 0 for q in el['half_width_and_offset']):
@@ -466,7 +513,12 @@ def d2_compare(data, source, max_points, counters, history=None, pathspec=None):
                         out.append(('path.missing', 'path', 'no PATH for element tag %r end %s half-width %r scale_width %r ext %r offset %r; candidates %r' % (
                             el['tag'], el['end'], el['half_width_and_offset'][0][0], f['scale_width'], el['end_extensions'], o,
                             [{k: e[k] for k in ('layer', 'datatype', 'pathtype', 'width', 'bgnextn', 'endextn', 'xy', 'props')} for e in pool['path'][:2]])))
-        if sc['robustpaths'] and not spec_here:
+        for f in ([] if spec_here else sc['robustpaths']):
+            if not f['simple_path']:
+                counters['out_of_scope_nonsimple_path'] = counters.get('out_of_scope_nonsimple_path', 0) + 1
+                for el in f['elements']:
+                    fractured_tags.append((el['tag'], f['repetition']['expanded'], dump_props(f['properties'])))
+        if any(f['simple_path'] for f in sc['robustpaths']) and not spec_here:
             counters['out_of_scope_robustpath'] = counters.get('out_of_scope_robustpath', 0) + 1
         # labels
         for l in sc['labels']:
@@ -535,12 +587,20 @@ def d2_compare(data, source, max_points, counters, history=None, pathspec=None):
         # fractured polygons / non-simple paths: region facts belong to C01; here only tag + count + size
         if fractured_tags:
             counters['out_of_scope_fractured_or_outline'] = counters.get('out_of_scope_fractured_or_outline', 0) + 1
-            for tg, copies, props in fractured_tags:
+            for tg, offs, props in fractured_tags:
                 mine = [e for e in pool['boundary'] if [e['layer'], e['datatype']] == tg]
-                if len(mine) < copies:
-                    out.append(('polygon.fractured', 'boundary', 'tag %r: %d pieces for %d copies' % (tg, len(mine), copies)))
                 for e in mine:
                     pool['boundary'].remove(e)
+                if len(mine) < len(offs) or len(mine) % len(offs):
+                    out.append(('copies.count', 'boundary', 'tag %r: %d BOUNDARY pieces for %d repetition copies' % (tg, len(mine), len(offs))))
+                    continue
+                if any(dict(e['props']) != props for e in mine):
+                    out.append(('copies.properties', 'props', 'tag %r: a piece does not carry the properties %r' % (tg, props)))
+                bad = copies_translation_closed([tuple(e['xy']) for e in mine], offs, S)
+                if bad:
+                    out.append(('copies.repetition', 'repetition', 'tag %r written through copies (fractured polygon / path outline), %d pieces, repetition offsets %r: %s' % (tg, len(mine), offs, bad)))
+                else:
+                    counters['copies_repetition_checked'] = counters.get('copies_repetition_checked', 0) + (1 if len(offs) > 1 else 0)
         left = sum(len(v) for v in pool.values())
         if left:
             out.append(('cell.extra', 'extra_elements', 'cell %s: %d decoded element(s) not accounted for by the source: %r' % (
